@@ -306,3 +306,43 @@ def run(ctx):
              'at the position where the encoder writes f; constructor parameter->field map from the constructor body, read positions from the parser\'s data flow, write order from the encoder\'s success paths', floor=10)
     n_fo = check_field_order(ctx, 'C01.2-field-order')
     ctx.anchor(n_fo >= 10, 'parsers that build a structure through erltf::types::*::new with an encoder for it')
+
+    # NEW_FUN_EXT carries its own extent: Size must be taken when the whole fun has been written
+    ctx.rule('C01.2-fun-size-covers-all', 'in the NEW_FUN_EXT encoder the buffer length that becomes the Size field is measured after the last byte of the fun has gone into that buffer: '
+             'nothing is appended to the measured buffer (no put_*, no nested encoder call on it) once its length has been taken', floor=1)
+    from ..wire import prim_of as _prim
+    from ..ranges import canon as _cn
+    FE = P.B(ENC + 'encode_new_fun_ext_impl')
+    if ctx.anchor(FE is not None, ENC + 'encode_new_fun_ext_impl'):
+        n_sz = 0
+        encs_ = set(encoder_fns(ctx.F))
+        for lb, lt in FE.calls():
+            nm = callee_of(lt)[0] or ''
+            if not (nm.endswith('::len') and lt['args'] and 'BytesMut' in str((lt.get('aty') or [''])[0])):
+                continue
+            d_ = FE.derived_locals([lt['dst']['l']])
+            feeds = False
+            for wb, wt in FE.calls():
+                wn = callee_of(wt)[0] or ''
+                if (wn.endswith('::put_u32') or wn.endswith('::to_be_bytes') or wn.endswith('TryFrom::try_from')) and any(l in d_ or l == lt['dst']['l'] for a in wt['args'] for l in FE._op_locals(a)):
+                    feeds = True
+            if not feeds:
+                continue
+            n_sz += 1
+            measured = _cn(FE, lt['args'][0])
+            later = FE.reachable(lb) - {lb}
+            late = []
+            for wb, wt in FE.calls():
+                if wb not in later or not wt['args']:
+                    continue
+                pr = _prim(wt)
+                is_w = pr is not None and pr[0] == 'w'
+                is_enc = any(n in encs_ for n in callee_names(wt))
+                if (is_w or is_enc) and _cn(FE, wt['args'][0]) == measured:
+                    late.append((wb, (callee_of(wt)[0] or '').rsplit('::', 1)[-1]))
+            if late:
+                ctx.bad('C01.2-fun-size-covers-all', 'size', 'after the length that becomes Size has been taken, %s still appends to the same buffer: Size stops short of the end of the fun, and a reader that skips by Size lands inside it'
+                        % late[0][1], ctx.where(FE, late[0][0]), key='WIRE:%sencode_new_fun_ext_impl:size-before-last-write' % ENC)
+            else:
+                ctx.ok('C01.2-fun-size-covers-all', 'size', 'nothing is appended to the measured buffer after its length is taken', ctx.where(FE, lb))
+        ctx.anchor(n_sz >= 1, ENC + 'encode_new_fun_ext_impl: a buffer length feeding the Size field')
